@@ -246,6 +246,10 @@ class Models:
         is_unit_err = dest_ty.replace(" ", "").endswith(",()>")
         site = (name, "bb", line)
         self.poison_check(fr, n, "user parser call `%s`" % name, line)
+        for v in flat:
+            dvv = self.deref_val(fr, v)
+            if isinstance(dvv, tuple) and dvv[0] in ("sym", "const") and not (dvv[0] == "sym" and dvv[1][:1] == ("inp_state",)):
+                fr.st.ev("uarg", repr_term(term_of(dvv)))
         nname = "user:%s@%s" % (name, line)
         pb = self.node(fr, n, nname)
         outs = []
@@ -413,6 +417,11 @@ class Models:
             kinds = ["Ok(Some)", "Ok(None)", "Err"]
         fnc = {"go_emit": "go", "go_check": "go", "go_emit_cfg": "go_cfg", "go_check_cfg": "go_cfg", "invoke": "go",
                "invoke_cfg": "go_cfg"}.get(name, name)
+        if name == "pratt_go":
+            for v in vals[idx + 1:]:
+                dvv = self.deref_val(fr, v)
+                if isinstance(dvv, tuple) and dvv[0] in ("sym", "const"):
+                    fr.st.ev("uarg", repr_term(term_of(dvv)))
         nname = "%s.%s:%s@%s" % (child, fnc, mode, line)
         pb = self.node(fr, n, nname)
         for k in kinds:
@@ -547,6 +556,7 @@ class Models:
             self.after_node(some, nname, "Some", pb)
             some.inps[n].pos = ("T", site)
             self.invalidate(some, ("tok", site))
+            self.invalidate(some, ("sym", ("peek",)))
             some.ev("read", name, "Some", line)
             none = st.copy()
             self.after_node(none, nname, "None", pb)
@@ -564,7 +574,7 @@ class Models:
             st.ev("read", name, "*", line)
             return [(st, UNIT)]
         if name in PEEKS:
-            return [(st, ("sym", ("peek", line)))]
+            return [(st, ("sym", ("peek",)))]
         if name in ("span_since", "slice_since"):
             c = self.deref_val(fr, vals[1])
             if isinstance(c, tuple) and c[0] == "struct":
